@@ -11,6 +11,7 @@ import (
 	"errors"
 	"fmt"
 	"io"
+	"net"
 	"strings"
 	"time"
 
@@ -102,6 +103,12 @@ func script(kind string, sys byte) *chanScript {
 	case "short":
 		s.pieces = []piece{good(0, hb(1)), good(1, &common.MessagePing{Seq: 1})}
 		s.endErr = io.EOF
+	case "junkfirst":
+		// the very first bytes of a new peer are junk, followed by valid frames
+		bad := sx.FrameOf(true, 1, sys, 1, &common.MessagePing{Seq: 5}, nil, 0, 0)
+		bad[len(bad)-2] ^= 0x11
+		s.pieces = []piece{{[]byte{0x00, 0x13}, false}, good(0, hb(1)), {bad, false}, good(2, &common.MessagePing{Seq: 7})}
+		s.endErr = io.EOF
 	case "truncated":
 		t := sx.FrameOf(true, 1, sys, 1, &common.MessagePing{Seq: 1}, nil, 0, 0)
 		s.pieces = []piece{good(0, hb(1)), {t[:len(t)-4], false}}
@@ -132,6 +139,7 @@ type exec struct {
 	finished        bool
 	keyed           bool
 	closeErrs       map[*gomavlib.Channel]error
+	listener        *vnet.FakeListener
 }
 
 // feed builds a FakeConn delivering the script in 2 chunks at a chosen boundary.
@@ -180,6 +188,22 @@ func (e *exec) Body() {
 		ss := &sx.SerialScript{Conns: []*vnet.FakeConn{{Name: "probe"}, e.conns[0], e.conns[1]}}
 		ss.Install()
 		n.Endpoints = []gomavlib.EndpointConf{gomavlib.EndpointSerial{Device: "/dev/ttyFAKE", Baud: 57600}}
+	case "ev8", "ev8tcp":
+		// server endpoint with two peers; the first datagram / segment of peer 0 starts with junk
+		// and carries the whole script in one piece
+		e.scripts = []*chanScript{script("junkfirst", 31), script("short", 32)}
+		e.conns = []*vnet.FakeConn{
+			{Name: "peer0", Remote: "9.9.9.1:1000", In: [][]byte{e.scripts[0].bytes()}, InErr: io.EOF},
+			{Name: "peer1", Remote: "9.9.9.2:1000", In: [][]byte{e.scripts[1].bytes()}, InErr: io.EOF},
+		}
+		e.listener = &vnet.FakeListener{Name: "lst"}
+		lst := e.listener
+		vnet.ListenHook = func(network, address string) (net.Listener, error) { return lst, nil }
+		if p.Scen == "ev8" {
+			n.Endpoints = []gomavlib.EndpointConf{gomavlib.EndpointUDPServer{Address: "0.0.0.0:5600"}}
+		} else {
+			n.Endpoints = []gomavlib.EndpointConf{gomavlib.EndpointTCPServer{Address: "0.0.0.0:5600"}}
+		}
 	case "ev7":
 		// the transport's write side fails once while its read side keeps working: frames
 		// arriving afterwards must still be delivered exactly once, on a live channel
@@ -268,6 +292,13 @@ func (e *exec) Body() {
 			vmc.Await("later", func() bool { return vmc.NowNS() >= int64(time.Second) })
 			e.conns[0].Feed(ps[1].b)
 			n.WriteMessageAll(hb(8)) //nolint
+		})
+	}
+	if e.listener != nil {
+		vmc.GoApp("peers", func() {
+			for _, c := range e.conns {
+				e.listener.Connect(c)
+			}
 		})
 	}
 	if p.Scen == "ev2" {
@@ -360,6 +391,15 @@ func (e *exec) scriptOf(i int, ch *gomavlib.Channel) *chanScript {
 			return e.scripts[i]
 		}
 		return &chanScript{}
+	}
+	if e.listener != nil {
+		// server endpoints: the channel's label names the peer
+		for k, c := range e.conns {
+			if strings.Contains(ch.String(), c.Remote) {
+				return e.scripts[k]
+			}
+		}
+		return nil
 	}
 	conf, ok := ch.Endpoint().Conf().(gomavlib.EndpointCustom)
 	if !ok {
@@ -468,7 +508,7 @@ func variants(thorough bool) []sx.Variant {
 		away bool
 	}
 	var svs []sv
-	for _, s := range []string{"ev1", "ev2", "ev3", "ev4", "ev5", "ev6", "ev7"} {
+	for _, s := range []string{"ev1", "ev2", "ev3", "ev4", "ev5", "ev6", "ev7", "ev8", "ev8tcp"} {
 		svs = append(svs, sv{s, false, false})
 	}
 	svs = append(svs, sv{"ev1", true, false}, sv{"ev4", true, false}, sv{"ev3", true, false})
